@@ -310,6 +310,190 @@ static std::string doStep(Context& ctx, const std::string& src) {
   return res;
 }
 
+// BEGIN C16 C17
+// Ops of the module-permission (C16) and module-object lifetime (C17) checks. The verification modules
+// harness/vmod (libbloc_vmod.so.N, libbloc_vmod2.so.N; found through LD_LIBRARY_PATH, see vlib/build_vmod.py)
+// write their event log to the memfd named by VMOD_LOG_FD, created here before the first import.
+//   plugreset            free every context/executable slot, reset the modules' counters, empty the log,
+//                        PluginManager::destroy() (no module loaded, no name granted)              -> ok
+//   unban api|cpp <hex>  bloc_unban_plugin / PluginManager::unbanPlugin                              -> ok
+//   clearperm api|cpp    bloc_clear_plugin_permissions / PluginManager::clearPermissions             -> ok
+//   capinew K            context K := bloc_create_context (always untrusted)                         -> ok
+//   capiclone K J        J := bloc_clone_context2(K)                                                 -> ok
+//   trust K 0|1          Context::trusted(b) (C++ only; there is no C API for it)                    -> ok
+//   istrusted K                                                                                      -> t=0|1
+//   parsem K X <hex>     Parser::parse; like `parse` but answers the message too  -> ok | perr <code> <hexmsg>
+//   capiparse K X <hex>  bloc_parse_executable (executable kept in slot X)        -> ok | perr <code> <hexmsg>
+//   loaded <hex>         PluginManager::findModuleTypeId(name) != 0                                  -> ld=0|1
+//   banned <hex>         PluginManager::bannedPlugin(name)                                           -> bn=0|1
+//   vlog                 event lines since the last vlog, joined by '~'                              -> log=<lines>
+//   live                 number of live objects in vmod / vmod2 (-1 = module not loaded)             -> live=<n>,<m>
+//   pwm K                Context::purgeWorkingMemory                                                  -> ok
+//   mkfile <hexpath> <hexcontent>  write a file (for include)                                        -> ok
+//   hops <script>        a sequence of raw bloc::Complex handle operations on objects of vmod (import by name done
+//                        here): n (newInstance, default ctor) c<i> (copy ctor) m<i> (move ctor) d<i> (destructor)
+//                        a<i>.<j> (h_i = h_j) s<i>.<j> (h_i.swap(h_j)) x<i>.<j> (h_i.swap(std::move(h_j))),
+//                        ops separated by ','; every ctor appends a handle (index from 0); handles that the script
+//                        does not destruct are never destructed                                      -> ok
+#include <dlfcn.h>
+#include <new>
+static int g_vlogfd = -1;
+static off_t g_vlogrd = 0;
+static void vlogInit() {
+  if (g_vlogfd >= 0) return;
+  g_vlogfd = memfd();
+  // keep the descriptor away from the small numbers contexts use
+  int hi = fcntl(g_vlogfd, F_DUPFD, 200);
+  if (hi >= 0) { close(g_vlogfd); g_vlogfd = hi; }
+  setenv("VMOD_LOG_FD", std::to_string(g_vlogfd).c_str(), 1);
+}
+static std::string vlogRead() {
+  vlogInit();
+  struct stat st; fstat(g_vlogfd, &st);
+  std::string o;
+  if (st.st_size > g_vlogrd) {
+    o.resize(st.st_size - g_vlogrd);
+    ssize_t n = pread(g_vlogfd, &o[0], o.size(), g_vlogrd);
+    if (n < 0) n = 0;
+    o.resize(n); g_vlogrd += n;
+  }
+  return o;
+}
+static std::string vmodSoname(const char* name) {
+  // the file name PluginManager::importModuleByName builds (LIBSOVERSION is private to libblocc: read it off
+  // the library we are linked with)
+  Dl_info info; std::string sov;
+  if (dladdr((void*)&bloc_version, &info) && info.dli_fname) {
+    char buf[4096]; const char* rp = realpath(info.dli_fname, buf);
+    std::string p = rp ? rp : info.dli_fname;          // .../libblocc.so.2.9.3
+    size_t k = p.find(".so.");
+    if (k != std::string::npos) {
+      std::string v = p.substr(k + 4); size_t d1 = v.find('.'); size_t d2 = d1 == std::string::npos ? d1 : v.find('.', d1 + 1);
+      sov = d2 == std::string::npos ? v : v.substr(0, d2);
+    }
+  }
+  return std::string("libbloc_") + name + ".so." + sov;
+}
+static void* vmodSym(const char* name, const char* sym) {
+  void* h = dlopen(vmodSoname(name).c_str(), RTLD_LAZY | RTLD_NOLOAD);
+  if (!h) return nullptr;
+  void* f = dlsym(h, sym);
+  dlclose(h);
+  return f;
+}
+static int vmodLive(const char* name) {
+  typedef int (*FN)(); FN f = (FN)vmodSym(name, "vmod_live_count");
+  return f ? f() : -1;
+}
+struct RawHandle { alignas(Complex) unsigned char mem[sizeof(Complex)]; Complex* p() { return reinterpret_cast<Complex*>(mem); } };
+
+static bool doOpC1617(const std::vector<std::string>& a, std::string& out) {
+  const std::string& cmd = a[0];
+  auto K = [&](size_t i) -> CtxSlot& { return g_ctx[atoi(a.at(i).c_str()) & 15]; };
+  auto X = [&](size_t i) -> Executable*& { return g_exe[atoi(a.at(i).c_str()) & 15]; };
+  auto perrm = [&](int no, const std::string& msg) { return "perr " + std::to_string(no) + " " + (msg.empty() ? std::string("-") : hexenc(msg)); };
+  if (cmd == "plugreset") {
+    vlogInit();
+    for (auto& x : g_exe) { delete x; x = nullptr; }
+    for (auto& s : g_ctx) { if (s.ctx) { delete s.ctx; s.ctx = nullptr; } if (s.fd >= 0) { close(s.fd); s.fd = -1; } s.rd = 0; }
+    g_objids.clear();
+    typedef void (*FN)();
+    for (const char* m : {"vmod", "vmod2"}) { FN f = (FN)vmodSym(m, "vmod_reset"); if (f) f(); }
+    PluginManager::destroy();
+    int rc = ftruncate(g_vlogfd, 0); (void)rc; g_vlogrd = 0; lseek(g_vlogfd, 0, SEEK_SET);
+    out = "ok"; return true;
+  }
+  if (cmd == "unban") {
+    std::string n = hexdec(a.at(2));
+    if (a.at(1) == "api") bloc_unban_plugin(n.c_str()); else PluginManager::instance().unbanPlugin(n);
+    out = "ok"; return true;
+  }
+  if (cmd == "clearperm") {
+    if (a.at(1) == "api") bloc_clear_plugin_permissions(); else PluginManager::instance().clearPermissions();
+    out = "ok"; return true;
+  }
+  if (cmd == "capinew") {
+    CtxSlot& s = K(1); s.fd = memfd(); s.rd = 0;
+    s.ctx = reinterpret_cast<Context*>(bloc_create_context(s.fd, s.fd));
+    out = "ok"; return true;
+  }
+  if (cmd == "capiclone") {
+    CtxSlot& s = K(1); CtxSlot& d = K(2); d.fd = memfd(); d.rd = 0;
+    d.ctx = reinterpret_cast<Context*>(bloc_clone_context2(reinterpret_cast<bloc_context*>(s.ctx), d.fd, d.fd));
+    out = "ok"; return true;
+  }
+  if (cmd == "trust") { K(1).ctx->trusted(a.at(2) == "1"); out = "ok"; return true; }
+  if (cmd == "istrusted") { out = std::string("t=") + (K(1).ctx->trusted() ? "1" : "0"); return true; }
+  if (cmd == "parsem") {
+    Context& c = *K(1).ctx; StringReader reader(hexdec(a.at(3)));
+    try { X(2) = Parser::parse(c, reader); out = "ok"; }
+    catch (ParseError& pe) { X(2) = nullptr; out = perrm((int)pe.no, pe.what()); }
+    return true;
+  }
+  if (cmd == "capiparse") {
+    bloc_context* c = reinterpret_cast<bloc_context*>(K(1).ctx);
+    std::string src = hexdec(a.at(3));
+    bloc_parsing_position pos = {0, 0};
+    bloc_executable* x = bloc_parse_executable(c, src.c_str(), &pos);
+    if (!x) { X(2) = nullptr; out = perrm(bloc_errno(), bloc_strerror() ? bloc_strerror() : ""); return true; }
+    X(2) = reinterpret_cast<Executable*>(x);
+    out = "ok"; return true;
+  }
+  if (cmd == "loaded") { out = std::string("ld=") + (PluginManager::instance().findModuleTypeId(hexdec(a.at(1))) ? "1" : "0"); return true; }
+  if (cmd == "banned") { out = std::string("bn=") + (PluginManager::instance().bannedPlugin(hexdec(a.at(1))) ? "1" : "0"); return true; }
+  if (cmd == "vlog") {
+    std::string l = vlogRead(), o;
+    for (char ch : l) o.push_back(ch == '\n' ? '~' : (ch == '|' ? '!' : ch));
+    if (!o.empty() && o.back() == '~') o.pop_back();
+    out = "log=" + o; return true;
+  }
+  if (cmd == "live") { out = "live=" + std::to_string(vmodLive("vmod")) + "," + std::to_string(vmodLive("vmod2")); return true; }
+  if (cmd == "pwm") { K(1).ctx->purgeWorkingMemory(); out = "ok"; return true; }
+  if (cmd == "mkfile") {
+    std::string path = hexdec(a.at(1)), content = a.size() > 2 ? hexdec(a.at(2)) : "";
+    FILE* f = fopen(path.c_str(), "w"); if (!f) { out = "nofile"; return true; }
+    fwrite(content.data(), 1, content.size(), f); fclose(f);
+    out = "ok"; return true;
+  }
+  if (cmd == "hops") {
+    vlogInit();
+    unsigned tid = PluginManager::instance().importModuleByName("vmod");
+    if (!tid) { out = "nomod"; return true; }
+    Context ctx(2, 2);
+    std::vector<Expression*> noargs;
+    static std::vector<RawHandle*> hs;     // storage is never freed: a destructed / leaked handle is never reused
+    hs.clear();
+    auto fresh = [&]() -> RawHandle* { RawHandle* r = new RawHandle; memset(r->mem, 0, sizeof r->mem); hs.push_back(r); return r; };
+    for (const std::string& t : split(a.size() > 1 ? a[1] : "", ',')) {
+      if (t.empty()) continue;
+      char k = t[0];
+      size_t dot = t.find('.');
+      size_t i = t.size() > 1 ? (size_t)atoi(t.c_str() + 1) : 0;
+      size_t j = dot == std::string::npos ? 0 : (size_t)atoi(t.c_str() + dot + 1);
+      if (k != 'n' && i >= hs.size()) { out = "badhandle"; return true; }
+      if ((k == 'a' || k == 's' || k == 'x') && j >= hs.size()) { out = "badhandle"; return true; }
+      switch (k) {
+      case 'n': {
+        Complex* c = Complex::newInstance((Type::TypeMinor)tid, -1, ctx, noargs);
+        if (!c) { out = "noobj"; return true; }
+        // the factory returns a heap handle: keep that very handle (slot = the heap block)
+        RawHandle* r = reinterpret_cast<RawHandle*>(c); hs.push_back(r);
+        break; }
+      case 'c': { Complex* src = hs[i]->p(); RawHandle* r = fresh(); new (r->mem) Complex(*src); break; }
+      case 'm': { Complex* src = hs[i]->p(); RawHandle* r = fresh(); new (r->mem) Complex(std::move(*src)); break; }
+      case 'd': hs[i]->p()->~Complex(); break;
+      case 'a': *hs[i]->p() = *hs[j]->p(); break;
+      case 's': hs[i]->p()->swap(*hs[j]->p()); break;
+      case 'x': hs[i]->p()->swap(std::move(*hs[j]->p())); break;
+      default: out = "badhop"; return true;
+      }
+    }
+    out = "ok"; return true;
+  }
+  return false;
+}
+// END C16 C17
+
 static std::string doOp(const std::string& op) {
   std::vector<std::string> a = split(op, ' ');
   const std::string& cmd = a[0];
@@ -442,6 +626,9 @@ static std::string doOp(const std::string& op) {
     delete p;
     return "toks=" + o;
   }
+  // BEGIN C16 C17
+  { std::string r; if (doOpC1617(a, r)) return r; }
+  // END C16 C17
   return "badop";
 }
 
